@@ -267,13 +267,18 @@ def gen_bytes(rng, big_ok):
     return gen.rand_bytes(rng, rng.choice([65535, 65536, 65537]))
 
 
+EXPLICIT_NONE = 'explicitly-assigned-None'
+
+
 def gen_value(rng, f, big_ok=True, present=None):
     k = f['kind']
     if present is None:
         present = rng.random() < 0.75
     if k == 'uint':
         if not present:
-            return None
+            # a field with a declared default: left unassigned (the default applies) or explicitly assigned None (documented:
+            # then it is omitted, default or not)
+            return EXPLICIT_NONE if (f.get('default') is not None and rng.random() < 0.5) else None
         if f.get('base') == 'enum':
             return rng.choice([0, 1, 300])
         if f.get('base') == 'flag':
@@ -315,7 +320,7 @@ def gen_value(rng, f, big_ok=True, present=None):
     raise ValueError(k)
 
 
-INPLACE = [0]
+INPLACE = [0, 0]
 
 
 def to_lib(rng, f, v):
@@ -357,6 +362,10 @@ def to_lib(rng, f, v):
             else:
                 if sv is None and sf['kind'] == 'uint' and sf.get('default') is not None:
                     continue     # leave unassigned: the default applies
+                if isinstance(sv, str) and sv == EXPLICIT_NONE and sf['kind'] == 'uint':
+                    setattr(m, sf['name'], None)
+                    INPLACE[1] += 1
+                    continue
                 setattr(m, sf['name'], to_lib(rng, sf, sv))
         return m
     return v
@@ -367,6 +376,8 @@ def ref_items(f, v, tag='field'):
     """-> list of items (type, payload(bytes)|children(list), tag, critical_relevant)"""
     k = f['kind']
     if k == 'uint':
+        if isinstance(v, str) and v == EXPLICIT_NONE:
+            return []
         if v is None:
             v = f.get('default')
         if v is None:
@@ -468,8 +479,8 @@ def norm_val(f, v):
     """Normalise a value obtained from a parsed model (or an expected value tree) for comparison."""
     k = f['kind']
     if k == 'uint':
-        if v is None:
-            return f.get('default')
+        if v is None or (isinstance(v, str) and v == EXPLICIT_NONE):
+            return f.get('default')         # absent on the wire: the parsed model shows the default
         return int(v.value) if isinstance(v, enum.Enum) else int(v)
     if k == 'bool':
         return bool(v)
@@ -513,10 +524,12 @@ def check_value(ctx, rng, spec, value, thorough_gaps):
     ref = enc_items(items)
     w['ref'] = ref if len(ref) < 400 else ref[:200]
     try:
-        n_in = INPLACE[0]
+        n_in, n_ex = INPLACE
         m = to_lib(rng, top, value)
         if INPLACE[0] > n_in:
             ctx.event('container-field-filled-in-place')
+        if INPLACE[1] > n_ex:
+            ctx.event('field-with-default-explicitly-set-to-None')
         markers = {}
         announced = m.encoded_length(markers)
         wire = bytes(m.encode(markers=markers))
@@ -679,9 +692,9 @@ def run(ctx):
             check_value(ctx, rng, spec, value, thorough_gaps=not ctx.quick)
             ctx.case(('shipped', cls.__name__, shape(value)), nontrivial=npresent >= 2)
             ctx.klass('shipped-values')
-    for k in ('roundtrip', 'gap-plain-noncrit', 'gap-plain-crit', 'gap-map-kv-noncrit', 'dup-critical', 'swap-critical', 'container-field-filled-in-place'):
+    for k in ('roundtrip', 'gap-plain-noncrit', 'gap-plain-crit', 'gap-map-kv-noncrit', 'dup-critical', 'swap-critical', 'container-field-filled-in-place', 'field-with-default-explicitly-set-to-None'):
         ctx.need_event(k)
-    ctx.assumptions = ['critical = odd type', 'BoolField False == absent', 'fields with a default are left unassigned rather than set to None',
+    ctx.assumptions = ['critical = odd type', 'BoolField False == absent', 'a field with a default is either left unassigned (default encoded) or explicitly set to None (omitted)',
                        'name fields use type 7 only; type numbers are distinct within one model (unambiguous decoding)']
 
 
